@@ -7,9 +7,11 @@ W=/tmp/seedrepo-$NAME
 rm -rf $W; rsync -a --exclude _build --exclude .git /repo/ $W/ || exit 2
 (cd $W && patch -p1 -s < $S/patch.diff) || { echo "PATCH FAILED"; rm -rf $W; exit 2; }
 cd /verif
+cp -f evidence/$ID.json /tmp/evidence-$ID.bak 2>/dev/null     # the evidence file describes the unchanged tree: keep it
 PMC_REPO=$W timeout 3000 ./check $ID --tier $TIER > /tmp/seedrun-$NAME.log 2>&1; rc=$?
 grep -E "^VIOLATION|^KNOWN|^BROKEN|^\[$ID\]" /tmp/seedrun-$NAME.log | cut -c1-260
 echo "exit=$rc"
 rm -rf $W
+[ -f /tmp/evidence-$ID.bak ] && mv -f /tmp/evidence-$ID.bak evidence/$ID.json
 rm -f /verif/replays/$ID-*
 exit $rc
